@@ -112,6 +112,7 @@ type c17St struct {
 	done       chan struct{}
 	doneClosed bool
 	inGet      bool
+	getCalls   int
 	seenBlock  bool // the current get was seen blocked at a quiescent point
 	got, rep   int64
 	pending    int64
@@ -159,6 +160,7 @@ func runC17(e *core.Env, s *c17Scenario) {
 				}
 				e.Logf("s%d w%d get(%d) quota=%d", i, wi, w.Size, st.wq.quota)
 				st.inGet, st.seenBlock = true, false
+				st.getCalls++
 				err := st.wq.get(w.Size)
 				st.inGet = false
 				progress++
@@ -246,14 +248,18 @@ func runC17(e *core.Env, s *c17Scenario) {
 				e.Violate("quota_ledger", "stream %d: quota is %d, but initial %d - granted %d + replenished %d = %d", i, q, st.initial, st.got, st.rep, want)
 			}
 			if st.inGet {
+				call := st.getCalls
+				still := func(c func() bool) bool {
+					return simConfirm(func() bool { return st.inGet && st.getCalls == call && c() })
+				}
 				switch {
-				case st.doneClosed:
+				case still(func() bool { return st.doneClosed }):
 					e.Violate("writer_not_released_by_done", "stream %d: sender still blocked in get at quiescence although the stream has ended", i)
 					stop = true
-				case q > 0:
-					e.Violate("writer_not_woken", "stream %d: sender blocked in get at quiescence while quota is %d > 0 (lost wake-up)", i, q)
+				case still(func() bool { return !st.doneClosed && st.wq.quota > 0 }):
+					e.Violate("writer_not_woken", "stream %d: sender blocked in get at quiescence while quota is %d > 0 (lost wake-up)", i, st.wq.quota)
 					stop = true
-				default:
+				case st.inGet && st.getCalls == call:
 					st.seenBlock = true
 					e.Probe("writer_blocked")
 				}
